@@ -232,6 +232,78 @@ func c09Run(cells []c09Cell, binary bool) explore.Result {
 	return res
 }
 
+// c09RunAfterRejected: a row that is rejected half-way (unencodable value in its LAST column) is
+// followed by a valid row; the valid row must arrive as exactly one correct DataRow.
+func c09RunAfterRejected(cells []c09Cell, binary bool) explore.Result {
+	var res explore.Result
+	res.Outcome = "after-rejected-row"
+	cols := make(wire.Columns, len(cells))
+	good := make([]any, len(cells))
+	bad := make([]any, len(cells))
+	for i, c := range cells {
+		cols[i] = wire.Column{Name: fmt.Sprintf("c%d", i), Oid: oid.Oid(c.OID)}
+		good[i], bad[i] = c.V, c.V
+	}
+	bad[len(bad)-1] = struct{ unencodable bool }{}
+	var errBad, errGood error
+	parse := func(ctx context.Context, q string) (wire.PreparedStatements, error) {
+		return wire.Prepared(wire.NewStatement(func(ctx context.Context, w wire.DataWriter, p []wire.Parameter) error {
+			errBad = w.Row(bad)
+			errGood = w.Row(good)
+			return w.Complete("SELECT 1")
+		}, wire.WithColumns(cols))), nil
+	}
+	one, err := harness.StartOne(parse, wire.MessageBufferSize(1<<16))
+	if err != nil {
+		res.Engine = err.Error()
+		return res
+	}
+	defer one.Stop()
+	one.Step(pgproto.Startup("user", "u"))
+	var out []byte
+	if binary {
+		out, _ = one.Step(pgproto.Cat(pgproto.Parse("", "q"), pgproto.Bind("", "", nil, nil, []int16{1}), pgproto.Describe('P', ""), pgproto.Execute("", 0), pgproto.Sync()))
+	} else {
+		out, _ = one.Step(pgproto.Query("q"))
+	}
+	var names []string
+	for _, c := range cells {
+		names = append(names, c.String())
+	}
+	res.Key = "after-rejected " + fmt.Sprint(names, binary)
+	ms, perr := pgproto.ParseBackend(out)
+	if perr != nil {
+		res.Fail("reply-grammar", fmt.Sprintf("rejected row then %v: %v", names, perr))
+		return res
+	}
+	if errBad == nil || errGood != nil {
+		res.Fail("row-verdicts", fmt.Sprintf("unencodable row returned %v, valid row returned %v", errBad, errGood))
+		return res
+	}
+	var t *pgproto.BMsg
+	var ds []pgproto.BMsg
+	for i := range ms {
+		switch ms[i].Type {
+		case 'T':
+			t = &ms[i]
+		case 'D':
+			ds = append(ds, ms[i])
+		}
+	}
+	if t == nil || len(ds) != 1 || len(ds[0].Row) != len(cells) {
+		res.Fail("datarow-count", fmt.Sprintf("one rejected and one accepted row: reply %q", pgproto.Kinds(ms)))
+		return res
+	}
+	for i, c := range cells {
+		f := ds[0].Row[i]
+		got, derr := pgproto.DecodeValue(t.Cols[i].OID, t.Cols[i].Format, f)
+		if derr != nil || got != c.Canon {
+			res.Fail("value-mismatch-after-rejected-row", fmt.Sprintf("column %d (%s): decoded %q (%v) from % x", i, c, got, derr, f))
+		}
+	}
+	return res
+}
+
 func init() {
 	explore.Register(&explore.Check{
 		ID:        "C09",
@@ -241,7 +313,7 @@ func init() {
 		Assumptions: []string{"small-scope claim: exhaustive for the listed alphabet only", "a source form that pgx cannot encode (Row returns an error) is outside the claim; it must emit nothing"},
 		Enumerate:   c09Enumerate,
 		Bounds:      func(tier string) map[string]any { v, n := c09Values(tier); return map[string]any{"values": len(v), "null_groups": len(n), "max_columns": 3} },
-		RequiredOutcomes: []string{"values", "with-null"},
+		RequiredOutcomes: []string{"values", "with-null", "after-rejected-row"},
 	})
 }
 
@@ -289,9 +361,30 @@ func c09Enumerate(tier string, emit explore.Emit) {
 		}
 		return c09Cell{}, false
 	}
-	for width := 2; width <= 3; width++ {
+	for width := 1; width <= 3; width++ {
 		forShapes(len(base), width, func(sh []int) {
 			if len(sh) != width {
+				return
+			}
+			{
+				cells := make([]c09Cell, width)
+				for i, s := range sh {
+					cells[i] = base[s]
+				}
+				for _, bin := range []bool{false, true} {
+					cells, bin := append([]c09Cell(nil), cells...), bin
+					emit(explore.Case{Family: "after-rejected-row", Size: width,
+						Desc: func() any {
+							var s []string
+							for _, c := range cells {
+								s = append(s, c.String())
+							}
+							return map[string]any{"rejected_row_then": s, "binary": bin}
+						},
+						Run: func() explore.Result { return c09RunAfterRejected(cells, bin) }})
+				}
+			}
+			if width == 1 {
 				return
 			}
 			for mask := 0; mask < 1<<width; mask++ {
